@@ -20,11 +20,13 @@ def is_private_name(name: str) -> bool:
 
 
 @st.composite
-def _members(draw: Any, namer: gen.Namer, depth: int, priv_bias: int) -> tuple[list[dict], dict | None]:
+def _members(draw: Any, namer: gen.Namer, depth: int, priv_bias: int, top_pool: tuple[str, ...] = ()) -> tuple[list[dict], dict | None]:
     members: list[dict] = []
 
     used: set[str] = set()
-    shared = {"ca": ["name", "limit", "value"], "me": ["run", "reset", "value_of"], "ia": ["name", "weight", "limit"], "Nest": ["Meta", "Entry"]}
+    # nested classes may also be named like a top-level class or enum declared earlier in the package (another module
+    # or the same one): the simple name repeats, the name chain stays unique
+    shared = {"ca": ["name", "limit", "value"], "me": ["run", "reset", "value_of"], "ia": ["name", "weight", "limit"], "Nest": ["Meta", "Entry", *top_pool]}
 
     def nm(stem: str, allow_dunder: bool = False) -> str:
         r = draw(st.integers(0, priv_bias))
@@ -52,7 +54,7 @@ def _members(draw: Any, namer: gen.Namer, depth: int, priv_bias: int) -> tuple[l
         members.append(gt.func(nm("me", allow_dunder=(kind == "method")), params, ret=draw(st.sampled_from(SIMPLE_TYPES)), kind=kind))
     if depth < 2:
         for _ in range(draw(st.sampled_from([0, 0, 1, 1, 2]))):
-            sub_members, sub_ctor = draw(_members(namer, depth + 1, priv_bias))
+            sub_members, sub_ctor = draw(_members(namer, depth + 1, priv_bias, top_pool))
             members.append(gt.klass(nm("Nest"), sub_members, ctor=sub_ctor))
     ctor = None
     if draw(st.booleans()):
@@ -101,6 +103,7 @@ def struct_package(draw: Any, pkgname: str, want_reexports: bool = True, priv_bi
         if draw(st.integers(0, 2)) == 0:
             pkgs.append([pkgname, sub, draw(st.sampled_from(["deep", "_core"])) + str(len(pkgs))])
     modules: list[dict] = []
+    top_pool: list[str] = []  # simple names of the top-level classes / enums generated so far
     for p in pkgs:
         for _ in range(draw(st.integers(1, 2)) if len(p) == 1 else draw(st.integers(1, 2))):
             mname = draw(st.sampled_from(["mod", "_impl", "core", "_base", "util"])) + str(len(modules))
@@ -111,12 +114,20 @@ def struct_package(draw: Any, pkgname: str, want_reexports: bool = True, priv_bi
                 if k == "func":
                     decls.append(gt.func(("_" if priv else "") + namer.fresh("fn"), [gt.param(namer.fresh("a"), "pos", ["int"], None)], ret=draw(st.sampled_from(SIMPLE_TYPES))))
                 elif k == "class":
-                    members, ctor = draw(_members(namer, 0, priv_bias))
+                    members, ctor = draw(_members(namer, 0, priv_bias, tuple(top_pool)))
                     decls.append(gt.klass(("_" if priv else "") + namer.fresh("Cls"), members, ctor=ctor))
                     class_order(draw, decls[-1])
+                    top_pool.append(decls[-1]["name"].lstrip("_"))
                 else:
                     variants = [("_" if draw(st.integers(0, 5)) == 0 else "") + namer.fresh("V") for _ in range(draw(st.integers(0, 3)))]
-                    decls.append(gt.enum(("_" if priv else "") + namer.fresh("En"), variants))
+                    ename = namer.fresh("En")
+                    # an enum named like nested classes elsewhere in the package ('Meta', 'Entry'), once per package
+                    if draw(st.integers(0, 2)) == 0:
+                        cand = draw(st.sampled_from(["Meta", "Entry"]))
+                        if cand not in top_pool:
+                            ename = cand
+                    decls.append(gt.enum(("_" if priv else "") + ename, variants))
+                    top_pool.append(ename)
             modules.append(gt.module([*p, mname], decls))
     # ---- re-exports (core forms: one re-export per declaration, in the module's package or an ancestor)
     inits: dict[str, list] = {}
